@@ -1661,7 +1661,9 @@ class COLR(BaseTable):
         # The writer similarly assumes Count values precede the things counted,
         # thus here we pre-initialize a CountReference; the actual count value
         # will be set to the lenght of the array by the time this is assembled.
-        self.LayerRecordCount = None
+        # (Without a LayerRecordArray nothing sets it: keep the count at 0 then,
+        # rather than leaving None behind in the object after compiling.)
+        self.LayerRecordCount = None if getattr(self, "LayerRecordArray", None) else 0
         return {
             **self.__dict__,
             "LayerRecordCount": CountReference(self.__dict__, "LayerRecordCount"),
